@@ -162,7 +162,20 @@ func lexModel(e *Env, r *Report) {
 		behs = behs[:4000]
 	}
 	recs := []any{}
-	for _, b := range behs {
+	// history: the parser keeps package-level state (inHeader); whole files - with and without a preamble -
+	// are parsed in between the rules, as a formatter run over a directory does
+	primers := []string{
+		"profile vgen-nopre /usr/bin/vgen-nopre {\n  include <abstractions/base>\n\n  /etc/x r,\n}\n",
+		"abi <abi/4.0>,\n\ninclude <tunables/global>\n\n@{exec_path} = @{bin}/vgen-pre\nprofile vgen-pre @{exec_path} {\n  include <abstractions/base>\n\n  /etc/x r,\n}\n",
+		"@{exec_path} = @{bin}/vgen-bad @{undefined\nprofile vgen-bad {\n}\n",
+	}
+	for bi, b := range behs {
+		if bi%40 == 0 {
+			func() {
+				defer func() { _ = recover() }()
+				_, _ = (&aa.AppArmorProfileFile{}).Parse(primers[(bi/40)%len(primers)])
+			}()
+		}
 		rs := aa.Rules{}
 		for _, lr := range b.Rules {
 			rs = append(rs, lr.real())
